@@ -1,4 +1,4 @@
 From Coq Require Import Extraction ExtrOcamlBasic NArith List.
-From SV.Cache Require Import PCache LoadMap C09Model.
+From SV.Cache Require Import PCache LoadMap Served C09Model.
 Extraction Language OCaml.
-Separate Extraction cache_new cache_init_cap cache_step cache_run loader_loadmany pm_n pm_m pm_b e_vt e_fn slot a_len.
+Separate Extraction cache_new cache_init_cap cache_step cache_run loader_loadmany pm_n pm_m pm_b e_vt e_fn slot a_len enc_hrun enc_served.
